@@ -62,6 +62,7 @@ struct C10 : Scenario {
         }
         if (r.chance(0.3)) { c.tracking = "track.txt"; plan_file(p, "track.txt", gen_tracking(r, c, r.range(1, 4))); }
         if (r.chance(0.15)) { c.impedance = "imp.dat"; Derived d = derive(c); plan_file(p, "imp.dat", gen_impedance(r, (long)d.wake_nmax, 50)); }
+        if (c.currents.size() == 1 && r.chance(0.2)) p.seti("fromfile", r.range(2, 9));
         c.to_plan(p);
         p.setu("entropy", r.u64());
         p.seti("planner", 0);
@@ -78,6 +79,16 @@ struct C10 : Scenario {
         stage_inputs(plan, rc.workdir);
         uint64_t entropy = plan.getu("entropy");
         long sigint = plan.geti("sigint", -1);
+        if (plan.geti("fromfile", 0) > 0) {
+            // the run continues from the results file of an earlier leg: its records, record 0 included, describe the loaded grid
+            Cfg c0 = cfg; c0.output = "pre.h5"; c0.outstep = 1; c0.saveps = 1; c0.tracking = "";
+            c0.rotations = (plan.geti("fromfile") - 0.5) / d.steps;
+            Launch l0 = make_launch(c0, rc.workdir, "pre", entropy, (int)plan.geti("planner"));
+            LaunchResult r0 = run_launch(l0); o.launches++;
+            if (!r0.exited || r0.code != 0) { o.set_infra("earlier leg failed: " + r0.describe() + " " + tail(r0.err)); return o; }
+            cfg.startfile = "pre.h5";
+            o.probe("reach.starts_from_results_file");
+        }
         Launch l = make_launch(cfg, rc.workdir, "run", entropy, (int)plan.geti("planner"));
         if (sigint >= 0) {
             // interpret modulo the number of hook hits of the uninterrupted run
@@ -212,11 +223,32 @@ struct C10 : Scenario {
                     o.probe("reach.record_with_phase_space");
                     const float* F = &ps[((size_t)pk * nb + b) * n * n];
                     o.checks += 2;
+                    // Known finding (see known_findings.json): with SavePhaseSpace=0 the extra phase-space record at t=0 is written before
+                    // the loop, i.e. before the renormalisation of step 0 (RenormalizeCharge n>0), while the profiles of record 0 are
+                    // written after it. When the start distribution does not carry unit charge (a continued run), the two differ by
+                    // exactly that factor. Identified narrowly: record 0, SavePhaseSpace=0, RenormalizeCharge>0, and profile AND energy
+                    // profile equal the projections times ONE common factor s != 1; anything else stays a projection violation.
+                    bool known_t0 = false;
+                    if (k == 0 && cfg.saveps == 0 && cfg.renorm > 0) {
+                        std::vector<double> px(n, 0.0), py(n, 0.0);
+                        double sp = 0, sproj = 0;
+                        for (unsigned x = 0; x < n; x++) for (unsigned y = 0; y < n; y++) { px[x] += (double)F[x * n + y] * ws[y]; py[y] += (double)F[x * n + y] * ws[x]; }
+                        for (unsigned x = 0; x < n; x++) { sp += P[x]; sproj += px[x]; }
+                        double sc = sproj != 0 ? sp / sproj : 1;
+                        bool uniform = std::fabs(sc - 1) > 2e-6 && std::fabs(sc - 1) < 0.5;
+                        for (unsigned x = 0; x < n && uniform; x++) if (std::fabs(sc * px[x] - P[x]) > 1e-5 * pmax + 1e-12 || std::fabs(sc * py[x] - E[x]) > 1e-5 * emax + 1e-12) uniform = false;
+                        if (uniform) {
+                            known_t0 = true;
+                            o.fail("C10.initial_ps_record_before_step0_renormalisation", at + ": the phase space stored for t=0 is the start distribution before the renormalisation of step 0, the profiles of record 0 are after it (common factor " + fmt_g(sc, 9) + ")");
+                        }
+                    }
+                    if (!known_t0)
                     for (unsigned x = 0; x < n; x++) {
                         double sx = 0;
                         for (unsigned y = 0; y < n; y++) sx += (double)F[x * n + y] * ws[y];
                         if (std::fabs(sx - P[x]) > 1e-5 * pmax + 1e-12) { o.fail("C10.profile_is_projection", at + " bunch " + std::to_string(b) + ": BunchProfile[" + std::to_string(x) + "]=" + fmt_g(P[x], 9) + " but the stored phase space projects to " + fmt_g(sx, 9)); break; }
                     }
+                    if (!known_t0)
                     for (unsigned y = 0; y < n; y++) {
                         double sy = 0;
                         for (unsigned x = 0; x < n; x++) sy += (double)F[x * n + y] * ws[x];
